@@ -13,7 +13,7 @@ FIXTURES = os.path.join(VERIF_DIR, "fixtures")
 
 REGISTRY: dict[str, Callable[[Run, Program], None]] = {}
 CONTROLS: dict[str, list[tuple[str, Callable[[Run, Program], object], list[tuple[str, str]]]]] = {}
-NOT_APPLICABLE = {"C01", "C10", "C13", "C15", "C16", "C20"}
+NOT_APPLICABLE = {"C01", "C10", "C13", "C15", "C20"}
 
 
 def prop(pid: str):
@@ -475,6 +475,28 @@ def check_c03(run: Run, prog: Program) -> None:
     run.stats.update({"sinks": n1, "numeric_returns": n2, "eq_resolutions": n3})
     for name in ("PolygonTensor.contains", "Triangle.contains", "SegmentTensor.contains"):
         prog.func(name)
+
+
+@prop("C16")
+def check_c16(run: Run, prog: Program) -> None:
+    from geolint import signdom
+
+    run.title = "Segment, polygon and triangle membership is the closed Cartesian point set"
+    run.clause = (
+        "decides the part of C16 that lives in comparisons, not in numbers: (E11.T) the barycentric sign test of Triangle.contains, interpreted "
+        "exhaustively over the finite domain of sign vectors of its three determinants and both orientations, is True exactly on the closed "
+        "triangle (vertices and edges included, independent of the direction of the vertex cycle); (E11.S) the two bounds of the segment test are "
+        "closed (non-strict or widened by the tolerance) and conjoined with membership in the supporting line; (E11.P) the crossing-number "
+        "result of the polygon test is joined with edge membership of the query point, and the 3D branch requires coplanarity. NOT decided: the "
+        "crossing-number special cases (ray through a vertex, collinear edges), the projection of 3D polygons, the determinants themselves "
+        "(their representative independence is C03), rays with an end point at infinity."
+    )
+    run.trusted += ["det(stack([p, b, c])) etc. are the barycentric coordinates up to a common positive factor (row replacement recognised syntactically)"]
+    n1 = signdom.rule_triangle(run, prog)
+    n2 = signdom.rule_segment(run, prog)
+    n3 = signdom.rule_polygon(run, prog)
+    run.stats.update({"sign_cases": n1, "segment_obligations": n2, "polygon_obligations": n3})
+    run.floor("membership obligations (segment + polygon)", n2 + n3, 4)
 
 
 @prop("C17")
